@@ -405,8 +405,21 @@ class Interp:
         self.incomplete(e, 'unary op')
 
     def ev_BinOp(self, e):
-        a = self.as_scalar(self.ev(e.left), e)
-        b = self.as_scalar(self.ev(e.right), e)
+        va, vb = self.ev(e.left), self.ev(e.right)
+        # a freshly allocated constant array scaled / shifted by a scalar is a constant array (np.ones(s) * NONE)
+        for arr, other, left in ((va, vb, True), (vb, va, False)):
+            if isinstance(arr, Arr) and arr.name.startswith('alloc#') and not getattr(arr, 'var', None) and \
+                    (arr.init in ('zeros', 'ones') or (isinstance(arr.init, tuple) and arr.init[0] == 'full')) and \
+                    isinstance(other, Rat) and isinstance(e.op, (ast.Mult, ast.Add, ast.Sub)) and (left or not isinstance(e.op, ast.Sub)):
+                base = Rat.const(0) if arr.init == 'zeros' else Rat.const(1) if arr.init == 'ones' else arr.init[1]
+                v = base * other if isinstance(e.op, ast.Mult) else base + other if isinstance(e.op, ast.Add) else base - other
+                self.fresh += 1
+                new = Arr('alloc#%d' % self.fresh, ('full', v), shape=arr.shape, dtype=arr.dtype, like=arr.like)
+                if hasattr(arr, 'shape_like'):
+                    new.shape_like = arr.shape_like
+                return new
+        a = self.as_scalar(va, e)
+        b = self.as_scalar(vb, e)
         op = e.op
         if isinstance(op, ast.Add):
             return a + b
@@ -504,6 +517,14 @@ class Interp:
                     left = right
                     continue
                 self.incomplete(e, 'comparison operator')
+            if isinstance(left, TupleV) and isinstance(right, TupleV) and len(left.items) == len(right.items) and \
+                    opn in ('==', '!=') and left.items:
+                # tuple equality is componentwise
+                parts = tuple(cmp_cond('==', self.as_scalar(a, e), self.as_scalar(b, e)) for a, b in zip(left.items, right.items))
+                c = parts[0] if len(parts) == 1 else ('and',) + parts
+                conds.append(c if opn == '==' else neg_cond(c))
+                left = right
+                continue
             conds.append(cmp_cond(opn, self.as_scalar(left, e), self.as_scalar(right, e)))
             left = right
         return conds[0] if len(conds) == 1 else ('and',) + tuple(conds)
@@ -809,6 +830,11 @@ class Interp:
                 self.fresh = sub.fresh
                 val = merge_returns(sub.k.returns, self)
                 if val is not None:
+                    # inlined: remember which helper produced this value from which arguments
+                    if not hasattr(self.k, 'inlined'):
+                        self.k.inlined = []
+                    self.k.inlined.append((f, args, kws, val, e, sub.k))
+                    self.k.inlined.extend(getattr(sub.k, 'inlined', []))
                     return val
             if sub is not None and sub.k.stores:
                 # callee writes arrays: record as call with summary
@@ -1125,25 +1151,7 @@ class Interp:
         # (extra guards, environment, node) of every path that leaves the loop through `break`
         loop.breaks = [(g[gdepth:], envb, nb) for g, envb, nb in self.break_stack.pop()]
         self.loops.pop()
-        # end-of-iteration value of every loop-carried scalar as a function of its loop-phi symbol: the fall-through
-        # value, overridden on the paths that reach a `continue`
-        upd = {}
-        for n, symv in carried.items():
-            if n in accs or not isinstance(symv, Rat):
-                continue
-            post = self.env.get(n)
-            okv = isinstance(post, Rat)
-            for g, envc in reversed(conts):
-                vc = envc.get(n)
-                extra = g[gdepth:]
-                if not isinstance(vc, Rat) or not extra:
-                    okv = False
-                    break
-                c = extra[0] if len(extra) == 1 else ('and',) + tuple(extra)
-                if okv and vc != post:
-                    post = Rat.atom(App('ite', [cond_arg(c), vc, post]))
-            if okv:
-                upd[n] = (symv, post)
+        upd = self._carried_updates(carried, accs, conts, gdepth)
         loop.carried = upd
         if hasattr(self, 'cells'):
             for kk in [kk for kk, vv in self.cells.items() if vv[2] > len(self.loops)]:
@@ -1166,18 +1174,43 @@ class Interp:
                 else:
                     self.env[n] = opq
 
+    def _carried_updates(self, carried, accs, conts, gdepth):
+        """end-of-iteration value of every loop-carried scalar as a function of its loop-phi symbol: the fall-through
+        value, overridden on the paths that reach a `continue`"""
+        upd = {}
+        for n, symv in carried.items():
+            if n in accs or not isinstance(symv, Rat):
+                continue
+            post = self.env.get(n)
+            okv = isinstance(post, Rat)
+            for g, envc in reversed(conts):
+                vc = envc.get(n)
+                extra = g[gdepth:]
+                if not isinstance(vc, Rat) or not extra:
+                    okv = False
+                    break
+                c = extra[0] if len(extra) == 1 else ('and',) + tuple(extra)
+                if okv and vc != post:
+                    post = Rat.atom(App('ite', [cond_arg(c), vc, post]))
+            if okv:
+                upd[n] = (symv, post)
+        return upd
+
     def st_While(self, s):
         self.fresh += 1
         var = 'while@%d' % self.fresh
         loop = Loop(var, None, None, None, s, 'while')
         self.k.loops.append(loop)
         assigned = _assigned_names(s.body)
+        loop.pre = {n: self.env.get(n) for n in assigned}
+        loop.phi = {}
         for n in assigned:
             v = self.env.get(n)
             if isinstance(v, Rat) or n not in self.env or \
                     (isinstance(v, tuple) and v and v[0] == 'param'):
                 self.fresh += 1
                 self.env[n] = Rat.sym('%s~w%d' % (n, self.fresh))
+                loop.phi[n] = self.env[n]
             elif _is_cond(v):
                 self.fresh += 1
                 self.env[n] = ('truth', Rat.sym('%s~w%d' % (n, self.fresh)))
@@ -1188,9 +1221,13 @@ class Interp:
             if not hasattr(self, stk):
                 setattr(self, stk, [])
             getattr(self, stk).append([])
+        gdepth = len(self.guards)
+        loop.gdepth = gdepth - 1
+        loop.test = c
         self.block(s.body)
-        self.cont_stack.pop()
-        self.break_stack.pop()
+        conts = self.cont_stack.pop()
+        loop.breaks = [(g[gdepth:], envb, nb) for g, envb, nb in self.break_stack.pop()]
+        loop.carried = self._carried_updates(loop.phi, set(), conts, gdepth)
         self.guards.pop()
         self.loops.pop()
         for n in assigned:
